@@ -683,6 +683,70 @@ def _clients(ctx: Ctx) -> None:
                               bad="after cancel() the session still hands out batches buffered before the cancel: it does not refuse further use (iteration yields data after cancel)")
 
 
+def _replays(ctx: Ctx, fi: FunctionInfo, depth: int = 0, seen: set[str] | None = None) -> ast.AST | None:
+    """A loop in *fi* (or in a repo function it calls, to depth 4) that issues the request again: a call of a
+    callable parameter / of .post/.request/.send inside a for/while body.  Returns the loop, or None."""
+    seen = set() if seen is None else seen
+    if fi.fq in seen or depth > 4:
+        return None
+    seen.add(fi.fq)
+    params = {a.arg for a in [*fi.node.args.posonlyargs, *fi.node.args.args, *fi.node.args.kwonlyargs]}
+    for lp in walk_scope(fi.node):
+        if isinstance(lp, (ast.For, ast.While, ast.AsyncFor)):
+            for st in [*lp.body]:
+                for c in walk_scope(st):
+                    if isinstance(c, ast.Call) and ((isinstance(c.func, ast.Name) and c.func.id in params) or last_attr(c) in ("post", "request", "send")):
+                        return lp
+    for c in calls(fi):
+        for g in ctx.res.resolve(fi, c, heuristic=False):
+            if g.node is not fi.node and g.module.relpath.startswith("vgi_rpc/"):
+                lp = _replays(ctx, g, depth + 1, seen)
+                if lp is not None:
+                    return lp
+    return None
+
+
+def _cancel_sent_once(ctx: Ctx) -> None:
+    """HTTP is stateless: the server cannot recognise a replayed cancel request, so each one runs on_cancel.  The
+    request cancel() sends must therefore be issued once -- not through a helper that re-sends on a transient
+    failure (the response may be lost after the hook ran) and not from a loop."""
+    ci = ctx.repo.cls(f"{HCLIENT}:HttpStreamSession")
+    cancel = ci.methods.get("cancel")
+    if cancel is None:
+        raise AnalysisError("anchor=HttpStreamSession.cancel not found")
+    cfg = cfg_of(cancel.node)
+    sends: list[tuple[ast.Call, str]] = []
+    for c in calls(cancel):
+        if last_attr(c) == "post" and "_client" in txt(c.func):
+            par = cfg.parent.get(id(c))
+            in_loop = False
+            while par is not None:
+                if isinstance(par, (ast.For, ast.While, ast.AsyncFor)):
+                    in_loop = True
+                par = cfg.parent.get(id(par))
+            sends.append((c, "loop in cancel()" if in_loop else ""))
+            continue
+        for g in ctx.res.resolve(cancel, c, heuristic=False):
+            if not g.module.relpath.startswith("vgi_rpc/http/"):
+                continue
+            lp = _replays(ctx, g)
+            if lp is None:
+                continue
+            # an explicit `config=None` selects the helper's single-shot path
+            cfgkw = kw(c, "config")
+            if isinstance(cfgkw, ast.Constant) and cfgkw.value is None:
+                sends.append((c, ""))
+            else:
+                sends.append((c, f"{g.name} (retry loop at {g.module.relpath}:{lp.lineno})"))
+    if not sends:
+        raise AnalysisError("anchor=the request HttpStreamSession.cancel sends: no post / sender call found")
+    bad = [(c, why) for c, why in sends if why]
+    ctx.check(not bad, "RF-WHO", "cancel-request-sent-once:http", cancel, (bad or sends)[0][0],
+              ok=f"the {len(sends)} request(s) cancel() issues go straight to the client's post(): one cancel() makes the server run on_cancel at most once",
+              bad=f"cancel() sends its request through {bad[0][1] if bad else ''}: when the response of a processed cancel is lost (gateway 502/503, read timeout) the request is sent again and the "
+              "stateless server runs the on_cancel hook a second time")
+
+
 def _clears_pending(cancel: FunctionInfo) -> bool:
     """cancel() empties self._pending_batches on every normal path."""
     cfg = cfg_of(cancel.node)
@@ -709,3 +773,4 @@ def run(ctx: Ctx) -> None:
     _cancel_branches(ctx, model)
     _headers(ctx)
     _clients(ctx)
+    _cancel_sent_once(ctx)
